@@ -61,8 +61,10 @@ def starts (evs : List Ev) : Nat := (evs.filter (· == Ev.start)).length
 def finishes (evs : List Ev) : Nat := (evs.filter (· == Ev.finish)).length
 
 /-- which variant the code under test is (the correspondence check compares the real
-    `termMonitor.wait` with `wait codeFixed`).  `false`: the released loop (F5 present). -/
-def codeFixed : Bool := false
+    `termMonitor.wait` with `wait codeFixed`).  `true` since the repair
+    "fix: termMonitor.wait checks the no-handlers condition before blocking";
+    the released loop (`false`) is kept for the counterexample and as a regression target. -/
+def codeFixed : Bool := true
 
 /-- the shutdown sequence of `main`: `wait(false)`; on SIGTERM exit; on SIGINT close the
     listeners and `wait(true)` with the same monitor (the count carries over). -/
